@@ -52,7 +52,7 @@ func c14Gen(r *verifh.Rng) []verifh.Section {
 			ops = append(ops, verifc14.GenOp(r, []string{"plain", "ctx", "ctx", "ctx", "ctxdone", "ctxdead"}, classes, verifh.Scale(6, 12), false))
 		}
 		secs = append(secs, verifh.Section{Cfg: "via=cached accept=" + r.PickS("none", "user", "user2", "both", "none", "user", "both", "usernil", "niluser") +
-			" cons=" + r.PickS("cache", "cache", "node", "conf"), Ops: ops})
+			" cons=" + r.PickS("cache", "cache", "node", "conf") + " reuse=" + r.PickS("0", "1", "1"), Ops: ops})
 	}
 	return secs
 }
@@ -84,20 +84,31 @@ func TestVerifC14Cached(t *testing.T) {
 		if cons != "cache" && cons != "node" && cons != "conf" {
 			panic("c14: bad cons " + cons)
 		}
+		reuse := cfg.Int("reuse", 0) == 1
+		var shared *CachedConn
+		// through each constructor of a CachedConn (the redis node is never contacted: a transaction does not touch
+		// the cache)
+		mk := func() CachedConn {
+			switch cons {
+			case "node":
+				return NewNodeConn(sqlx.NewSqlConnFromDB(db, opts...), redis.New("127.0.0.1:1"))
+			case "conf":
+				return NewConn(sqlx.NewSqlConnFromDB(db, opts...), cache.CacheConf{{
+					RedisConf: redis.RedisConf{Host: "127.0.0.1:1", Type: redis.NodeType, NonBlock: true}, Weight: 100}})
+			}
+			return NewConnWithCache(sqlx.NewSqlConnFromDB(db, opts...), nil)
+		}
 		call := func(api, kind string, _ bool, _ int, body func(verifc14.Sess) error, mark *string, _ *verifc14.Core) error {
 			*mark = "?"
 			// a fresh SqlConn (fresh breaker) per operation: the breaker never has a history to trip on
-			// through each constructor of a CachedConn (the redis node is never contacted: a transaction does not
-			// touch the cache)
-			var cc CachedConn
-			switch cons {
-			case "node":
-				cc = NewNodeConn(sqlx.NewSqlConnFromDB(db, opts...), redis.New("127.0.0.1:1"))
-			case "conf":
-				cc = NewConn(sqlx.NewSqlConnFromDB(db, opts...), cache.CacheConf{{
-					RedisConf: redis.RedisConf{Host: "127.0.0.1:1", Type: redis.NodeType, NonBlock: true}, Weight: 100}})
-			default:
-				cc = NewConnWithCache(sqlx.NewSqlConnFromDB(db, opts...), nil)
+			// a fresh CachedConn per operation, or (reuse=1) ONE CachedConn for all calls of the section: whatever an
+			// entry point keeps between calls, and the real breaker's history, then carry over
+			cc := mk()
+			if reuse {
+				if shared == nil {
+					shared = &cc
+				}
+				cc = *shared
 			}
 			var ctx context.Context
 			var end func(bool)
